@@ -6,7 +6,7 @@ CONSTANTS MaxLen, MaxDoc, EmitLen
 VARIABLES t, doc, phase
 vars == <<t, doc, phase>>
 
-StepLists(n) == UNION {[1..m -> StepNames \cup {"bogus"}] : m \in 0..n}
+StepLists(n) == UNION {[1..m -> StepNames \cup {"bogus", "@rev"}] : m \in 0..n}
 
 Tags == {"div", "p", "i", "script", "style", "head"}
 RawText == {"script", "style"}
